@@ -1,11 +1,12 @@
 pub mod c05;
 pub mod c08;
 pub mod c09;
+pub mod c10;
 
 use crate::core::PropSpec;
 
 pub fn all() -> Vec<&'static PropSpec> {
-    vec![&c05::C05, &c08::C08, &c09::C09, &c05::C18]
+    vec![&c05::C05, &c08::C08, &c09::C09, &c10::C10, &c05::C18]
 }
 
 pub fn lookup(id: &str) -> Option<&'static PropSpec> {
